@@ -522,6 +522,21 @@ def run_unit(unit, tier):
                  uuid.UUID("FFFFFFFF-FFFF-4FFF-BFFF-FFFFFFFFFFFF"), uuid.UUID("00000000-0000-0000-c000-000000000046")]
         for v in vals:
             ctx.check(raw, v)
+        # a str given for a uuid position is written as it is (whatever spelling of the UUID it uses)
+        parsed_u = fa.parse_schema(dict(raw))
+        for text in ("12345678-1234-4234-9234-123456789ABC", "{12345678-1234-4234-9234-123456789abc}", "urn:uuid:12345678-1234-4234-9234-123456789abc",
+                     "12345678123442349234123456789abc", "12345678-1234-4234-9234-123456789abc", "00000000-0000-0000-0000-000000000000"):
+            res.evals += 1
+            ctx.n += 1
+            fo = io.BytesIO()
+            try:
+                fa.schemaless_writer(fo, parsed_u, text)
+                got = fo.getvalue()
+            except Exception as e:
+                got = f"{type(e).__name__}: {e}"
+            want = binary.zigzag(len(text.encode())) + text.encode()
+            if got != want:
+                res.add(Violation("c16.repr", "representation:string-uuid-given-as-str", f"the str {text!r} under string/uuid was stored as {got!r}, its UTF-8 is {want!r}", {"schema": raw, "value": text}))
         res.sample({"type": "uuid", "values": len(vals)})
     elif kind == "decimal":
         p, sc = unit[1], unit[2]
